@@ -59,7 +59,9 @@ impl SLIT {
 
     fn update_header(&mut self, old_values: &[u8], new_value: u8) {
         self.checksum.delete(old_values);
-        self.checksum.append(&[new_value, new_value]);
+        for _ in old_values {
+            self.checksum.add(new_value);
+        }
         self.header.checksum = self.checksum.value();
     }
 
@@ -73,7 +75,12 @@ impl SLIT {
 
         self.entries[domain_a + self.localities as usize * domain_b] = locality_value;
         self.entries[domain_b + self.localities as usize * domain_a] = locality_value;
-        self.update_header(&old_values, locality_value);
+        if domain_a == domain_b {
+            // a diagonal entry is a single cell
+            self.update_header(&old_values[..1], locality_value);
+        } else {
+            self.update_header(&old_values, locality_value);
+        }
     }
 }
 
